@@ -5,6 +5,7 @@ from hypothesis import strategies as st
 from vlib import strat as S, oracles as O
 
 ID = "C18"
+SWITCH_OFF = 6        # every 6th case runs with xfab.CHECKS switched off (results must not depend on it)
 RULE = ("Hypothesis: reduced-like cells (a<=b<=c within a factor 3, angles 75..105) and the conforming families (cubic, "
         "tetragonal, orthorhombic, hexagonal, rhombohedral, monoclinic), optionally transformed by a unimodular integer matrix "
         "with entries in {-1,0,1} (6960 matrices, drawn by index); both modules. Cases whose true successive minima (searched "
